@@ -218,10 +218,7 @@ func (e *Engine) verifyFunc(f *ssa.Function) *FnRun {
 	vars := bindNames(r.fc, f, f.Signature, f.Signature.Recv() != nil, args)
 	for _, fv := range f.FreeVars {
 		// captured variables are visible in clauses by name, as their contents at entry
-		func() {
-			defer func() { recover() }()
-			vars[fv.Name()] = st.load(st.derefLoc(st.regs[fv]))
-		}()
+		vars[fv.Name()] = r.freeVarContent(st, fv, st.regs[fv])
 	}
 	st.ghostParams = map[string]*V{}
 	if r.fc != nil {
